@@ -159,9 +159,12 @@ var PredFns = []predFn{
 		B1:   func(x bool) bool { atomic.AddInt64(&PredCalls, 1); return !x },
 		S1:   func(x *string) bool { atomic.AddInt64(&PredCalls, 1); return x == nil },
 		I2:   func(x, y int) bool { atomic.AddInt64(&PredCalls, 1); return x == y },
-		F2:   func(x, y float64) bool { atomic.AddInt64(&PredCalls, 1); return x == y || (math.IsNaN(x) && math.IsNaN(y)) },
-		B2:   func(x, y bool) bool { atomic.AddInt64(&PredCalls, 1); return x == y },
-		S2:   func(x, y *string) bool { atomic.AddInt64(&PredCalls, 1); return (x == nil) == (y == nil) },
+		F2: func(x, y float64) bool {
+			atomic.AddInt64(&PredCalls, 1)
+			return x == y || (math.IsNaN(x) && math.IsNaN(y))
+		},
+		B2: func(x, y bool) bool { atomic.AddInt64(&PredCalls, 1); return x == y },
+		S2: func(x, y *string) bool { atomic.AddInt64(&PredCalls, 1); return (x == nil) == (y == nil) },
 	},
 	{
 		Name: "mod3/small/true/hasa",
@@ -172,7 +175,10 @@ var PredFns = []predFn{
 		I2:   func(x, y int) bool { atomic.AddInt64(&PredCalls, 1); return x+y > 0 },
 		F2:   func(x, y float64) bool { atomic.AddInt64(&PredCalls, 1); return x+y > 0 },
 		B2:   func(x, y bool) bool { atomic.AddInt64(&PredCalls, 1); return x || y },
-		S2:   func(x, y *string) bool { atomic.AddInt64(&PredCalls, 1); return x != nil && y != nil && len(*x) == len(*y) },
+		S2: func(x, y *string) bool {
+			atomic.AddInt64(&PredCalls, 1)
+			return x != nil && y != nil && len(*x) == len(*y)
+		},
 	},
 }
 
